@@ -196,10 +196,13 @@ def from_Composition(composition):
     # warning Throw exception
     if not hasattr(composition, "tracks"):
         return False
+    def escape(text):
+        return str(text).replace("\\", "\\\\").replace('"', '\\"')
+
     result = '\\header { title = "%s" composer = "%s" opus = "%s" } ' % (
-        composition.title,
-        composition.author,
-        composition.subtitle,
+        escape(composition.title),
+        escape(composition.author),
+        escape(composition.subtitle),
     )
     for track in composition.tracks:
         result += from_Track(track) + " "
